@@ -1,6 +1,7 @@
 """C13 cEMI link frames round-trip and carry the correct frame type."""
 from harness.cases import C12 as c12
 from harness.lib import cemi_common as cc
+from harness.lib.poison import poison
 from xknx.cemi import CEMIFrame, CEMIMessageCode
 from xknx.cemi.cemi_frame import CEMIInfo, CEMILData
 from xknx.cemi.flags import CEMIFlags, CEMIPriority
@@ -15,7 +16,7 @@ RULE = ("build: generated L_Data frames from telegram parts - destination kinds 
         "and 254/255, 6-bit values, reads/responses, a pool of management services) x all priorities x repeat/system-broadcast/ack/confirm "
         "flags x hop counts 0..8,15 x message codes x additional info; each is serialised, compared with the model, parsed back and "
         "compared field-wise; reser: every frame accepted from C12's generator is re-serialised and compared with the input under the "
-        "frame-type/reserved-bit mask. non-trivial = distinct cases that serialise (or are rejected for length/hop count)")
+        "frame-type/reserved-bit mask; every parse is done twice with the first result's attributes overwritten in between (history independence, harness/lib/poison.py). non-trivial = distinct cases that serialise (or are rejected for length/hop count)")
 TRUSTED = c12.TRUSTED + ["for `build`/`reser` lines the payload's canonical encoding payload.to_knx() and calculated_length() are inputs of "
                          "the model line (C05/C06 cover the APCI codec); C13's theorems assume exactly the codec laws stated in Props/C13.lean"]
 CASE_TIMEOUT = 2.0
@@ -112,6 +113,11 @@ def run_impl(case):
         out, fr, tag = cc.parse(raw)
         if fr is None:
             return {"out": "rejected", "line": None}
+        # history independence: the first result is modified, the same octets are parsed again (see harness/lib/poison.py)
+        poison(fr)
+        out_again, fr, tag = cc.parse(raw)
+        if out_again != out:
+            return {"out": f"aliased {out} || {out_again}", "line": None}
         d = fr.data
         if isinstance(d, CEMILData) and d.payload is not None:
             try:
@@ -203,6 +209,10 @@ def oracle(case, out):
         out2, fr2, _ = cc.parse(raw)
         if fr2 is None:
             return f"serialised frame does not parse back: {out2}"
+        poison(fr2)
+        out3, fr2, _ = cc.parse(raw)
+        if out3 != out2:
+            return f"parsing the serialised octets again after the first result was modified gives a different frame (parsed frames share mutable state): {out3} vs {out2}"
         d, d2 = fr.data, fr2.data
         f1, f2 = d.flags, d2.flags
         same_flags = (f1.priority, f1.repeat_on_error, f1.system_broadcast, f1.acknowledge_request, f1.confirm_error, f1.hop_count,
@@ -214,6 +224,9 @@ def oracle(case, out):
             return f"parsed-back frame differs: {cc.render_frame(fr2)} vs {cc.render_frame(fr)}"
         return None
     # reser
+    if out.startswith("aliased "):
+        return ("parsing the same octets again after the first result was modified gives a different frame "
+                f"(parsed frames share mutable state): {out[8:]}")
     if out in ("rejected", "payload-refuses"):
         return None
     fr = case.pop("_fr")
